@@ -400,13 +400,11 @@ impl FaultCfg {
         if rng.coin() {
             c.f_fail_s = *rng.pick(&[20u32, 60, 120]);
         }
-        if rng.below(4) == 0 {
+        // re-entrant operations live in runs of their own (one in eight): whatever such a run
+        // observes after a re-entry is advisory, so they must not dilute the ordinary runs
+        if rng.below(8) == 0 {
             c.w_reenter = *rng.pick(&[20u32, 60, 120]);
-        }
-        if rng.below(4) == 0 {
             c.r_reenter = *rng.pick(&[20u32, 60]);
-        }
-        if rng.below(4) == 0 {
             c.f_reenter = *rng.pick(&[20u32, 60, 120]);
         }
         c.flips = match rng.below(8) {
